@@ -147,4 +147,30 @@ def monoRev : List Ev → Bool
     rest.all (fun e => match e with | .setState y => decide (y.step ≤ x.step) | _ => true) && monoRev rest
   | _ :: rest => monoRev rest
 
+/-! ## C09: the confirmed options are in force before any authentication data is exchanged -/
+
+/-- the encryption of the newest negotiation confirmation the server emitted -/
+def confirmedEnc : List Ev → Option Opt
+  | [] => none
+  | .emit s _ :: rest =>
+    if s.state = .negotiating ∧ s.enc ≠ [] ∧ s.encOpts = [] then some s.enc else confirmedEnc rest
+  | _ :: rest => confirmedEnc rest
+
+/-- **C09 (server applies before authenticating)** on a newest-first trace: once a confirmation
+went out, every authentication request, `Authenticate` call and `established` envelope happens
+with the transport on the confirmed encryption. -/
+def appliedRev : List Ev → Bool
+  | [] => true
+  | .emit s enc :: rest =>
+    (if s.state = .authenticating ∨ s.state = .established then
+      (match confirmedEnc rest with
+       | some b => decide (enc = b)
+       | none => true)
+     else true) && appliedRev rest
+  | .authCall _ _ _ _ enc _ :: rest =>
+    (match confirmedEnc rest with
+     | some b => decide (enc = b)
+     | none => true) && appliedRev rest
+  | _ :: rest => appliedRev rest
+
 end LimeModel.ServerSpec
